@@ -254,6 +254,44 @@ func runC10(c *core.Ctx) {
 				return
 			}
 		}
+		// (3) once a SPS and a PPS have both been handed over (in either order, the latest of each counts), they
+		// arrive before the next ordinary unit: "SPS/PPS arrive as one STAP-A before the next unit"
+		segs := make([][][]byte, 1)
+		for _, u := range units {
+			if typ := u[0] & 0x1F; typ == 7 || typ == 8 {
+				segs[len(segs)-1] = append(segs[len(segs)-1], u)
+			} else {
+				segs = append(segs, nil)
+			}
+		}
+		has := func(seg [][]byte, u []byte) bool {
+			for _, x := range seg {
+				if bytes.Equal(x, u) {
+					return true
+				}
+			}
+			return false
+		}
+		var ls, lp []byte
+		k := 0
+		for _, u := range expected {
+			switch u[0] & 0x1F {
+			case 7:
+				ls = u
+			case 8:
+				lp = u
+			default:
+				if ls != nil && lp != nil {
+					c.Probe("superseded-pair-due")
+					if !has(segs[k], ls) || !has(segs[k], lp) {
+						c.Violate("lossless", "C10/nal-sequence/supersede/pair-not-delivered", "a SPS (%d bytes) and a PPS (%d bytes) had both been handed over before ordinary unit %d, but the receiver did not see both before that unit (mtu %d)", len(ls), len(lp), k, mtu)
+						return
+					}
+					ls, lp = nil, nil
+				}
+				k++
+			}
+		}
 		return
 	}
 	// parameter sets still held at the end of the stream have not been sent yet
